@@ -44,6 +44,7 @@ void alloc_heap_shuffle(uint64_t seed);     // junk allocations to move addresse
 
 // innermost frame of the current call stack that belongs to ezc3d (demangled, no arguments)
 std::string innermost_ezc3d_fn();
+std::string outermost_ezc3d_fn();
 
 void install_crash_handlers();              // SIGSEGV/SIGABRT/SIGBUS/SIGFPE -> report + _exit(70)
 void crash_context(const char *ctx);        // text printed by the crash handler (e.g. "run 17")
